@@ -90,7 +90,14 @@ def leaf_setup(ctx):
     def to_float(c, a, k):
         return z3.fpToFP(z3.RNE(), z3.ToReal(lift(a[0])), z3.Float64())
 
-    calls = {"json_or_yaml_load": load, "float": to_float, UNEXPECTED: raise_unexpected}
+    ctx.classes.add("JSONDecodeError", ["ValueError"])
+    ctx.classes.add("TOMLDecodeError", ["ValueError"])
+
+    def mode_exceptions(c, a, k):
+        # what the *parser mode's* loader may raise (not used by the shipped arm: json_or_yaml_load always reads with PyYAML, whatever the mode)
+        return [(ClassRef("YAMLError"),), (ClassRef("JSONDecodeError"),), (ClassRef("TOMLDecodeError"),)][c.choose(3, "parser-mode:yaml/json/toml")]
+
+    calls = {"json_or_yaml_load": load, "float": to_float, UNEXPECTED: raise_unexpected, "get_loader_exceptions": mode_exceptions}
     consts = {"leaf_types": tuple(ClassRef(x) for x in LEAVES), "json_or_yaml_loader_exceptions": (ClassRef("YAMLError"),)}
     env = {"val": val, "typehint": ClassRef(T)}
     return Setup(env=env, calls=calls, consts=consts, cms={"suppress": suppress_cm()}, data=dict(T=T, kind=kind, val=val, loaded_kind=loaded_kind, loaded=loaded))
